@@ -818,7 +818,9 @@ class CompressedBytesColumn(Column):
 
         def __iter__(self):
             for v in VarBytesColumn.Reader.__iter__(self):
-                yield self._decompress(v)
+                if v:
+                    v = self._decompress(v)
+                yield v
 
         def load(self):
             return list(self)
